@@ -157,7 +157,7 @@ package iobroker
 
 // proxyOut's reader goroutine.
 //@ func Broker.proxyOut#1()
-//@   props C03 C04
+//@   props C03 C04 C11
 //@   ghost lastN int = 0
 //@   ghost lastErr error = nil
 //@   ghost sentData bool = false
